@@ -180,7 +180,21 @@ def run(ctx):
     fi, paths = own_method_paths(ctx, "BitsInteger", "_emitprimitivetype")
     ok = all(p.retval == ("fmt", N.const("b%s"), ("tuple", (N.selfattr("length"),))) for p in paths if p.returns) and any(p.returns for p in paths)
     ctx.ob("C19.R2", fi, ok, "BitsInteger exports b{length}", key="BitsInteger type")
-    ctx.floor("C19.R2", 23)
+    # bit-sized types (b<n>) are emitted for byte-level constructs only in a bitwise context
+    nb = 0
+    for f, fcls in funs:
+        owner = f.qual.split(".")[0]
+        if owner == "BitsInteger":
+            continue
+        ps = paths_of(ctx, f, fcls)
+        bits = [p for p in ps if p.returns and p.retval is not None and p.retval[0] == "fmt" and N.is_const(p.retval[1]) and str(p.retval[1][2]).startswith("b%")]
+        if not bits:
+            continue
+        nb += 1
+        bwp = [("param", "bitwise"), ("free", "bitwise")]
+        ok = all(any(g in bwp for g in p.guards()) for p in bits)
+        ctx.ob("C19.R2", f, ok, "%s exports a bit-sized type b<n> only when it sits in a bitwise context (in byte context the same number would be read as bits, not bytes)" % f.qual, key="%s bit type guard" % f.qual)
+    ctx.floor("C19.R2", 23 + 3)
 
     # ---------------------------------------------------------------- R5: shared tables are keyed by fresh names
     fi, paths = own_method_paths(ctx, "KsyGen", "allocateId")
@@ -223,7 +237,14 @@ def run(ctx):
         refs = [(i, d.get(k)) for i, d in enumerate(ds) for k in ("size", "repeat_expr") if N.is_const(d.get(k) or ()) and isinstance(d.get(k)[2], str)]
         ok = bool(refs) and all(r in ids[:i] for i, r in refs)
         ctx.ob("C19.R3", fi, ok, "%s: intra-list references name an id emitted earlier in the same list (ids %s, refs %s)" % (macro or where, [N.show(i) for i in ids], [N.show(r) for _, r in refs]), key="%s refs" % (macro or where))
-    ctx.floor("C19.R3", 7)
+    # a size-delimited payload is one attribute: id / size / type only -- the payload's own repeat / if / contents live inside that type
+    for where, macro in (("Prefixed", None), (None, "PascalString")):
+        fi, paths = one(where, "_emitseq", macro)
+        ds = [d for p, d in retdict(paths)]
+        sized = [d for d in ds if "size" in d]
+        ok = bool(sized) and all(set(d) <= {"id", "size", "type", "encoding"} for d in sized)
+        ctx.ob("C19.R3", fi, ok, "%s: the sized payload entry carries only id/size/type (a repeat or condition spread onto it would escape the length prefix); keys %s" % (macro or where, [sorted(d) for d in sized]), key="%s sized entry" % (macro or where))
+    ctx.floor("C19.R3", 9)
 
     # ---------------------------------------------------------------- R4
     ksy, bw, rec = ("param", "ksy"), ("param", "bitwise"), ("param", "recursion")
@@ -239,5 +260,25 @@ def run(ctx):
                "%s falls back to %s(ksy, bitwise, recursion+1) only inside the handler, handing bitwise on unchanged" % (meth, fallback), key="%s fallback" % meth)
         stop = [p for p in paths if N.mk_cmp(">=", rec, N.const(3)) in p.guards()]
         ctx.ob("C19.R4", fi, bool(stop) and all(p.outcome[0] == "raise" for p in stop), "%s stops at recursion depth 3" % meth, key="%s stop" % meth)
-    ctx.floor("C19.R4", 12)
+    # the hyphenation the vocabulary rule (R1) presupposes is actually applied on both emitting fallbacks
+    fi, paths = own_method_paths(ctx, "Construct", "_compileseq")
+    prim = [p for p in paths if p.returns and not any(x.kind == "CATCH" for x in p.events)]
+    ctx.ob("C19.R4", fi, bool(prim) and all(p.retval == ("call", ("free", "hyphenatelist"), (("selfcall", "_emitseq", (ksy, bw), ()),), ()) for p in prim),
+           "_compileseq returns hyphenatelist(_emitseq(...)): python-style keys (repeat_expr, if_) become Kaitai keys", key="_compileseq hyphenates")
+    fi, paths = own_method_paths(ctx, "Construct", "_compilefulltype")
+    prim = [p for p in paths if p.returns and not any(x.kind == "CATCH" for x in p.events)]
+    ctx.ob("C19.R4", fi, bool(prim) and all(p.retval == ("call", ("free", "hyphenatedict"), (("selfcall", "_emitfulltype", (ksy, bw), ()),), ()) for p in prim),
+           "_compilefulltype returns hyphenatedict(_emitfulltype(...))", key="_compilefulltype hyphenates")
+    fi = M.function("hyphenatedict")
+    ps = paths_of(ctx, fi)
+    d = ("param", "d")
+    k = ("key", d, 0)
+    want = ("comp", "dict", ("kv", ("call", ("attr", ("call", ("attr", k, "replace"), (N.const("_"), N.const("-")), ()), "rstrip"), (N.const("-"),), ()), ("val", d, 0)), ((("call", ("attr", d, "items"), (), ()), ()),), (0,))
+    ctx.ob("C19.R4", fi, len(ps) == 1 and N.canon_lids(ps[0].retval) == want, "hyphenatedict maps every key k to k.replace('_','-').rstrip('-') and keeps the values", key="hyphenatedict")
+    fi = M.function("hyphenatelist")
+    ps = paths_of(ctx, fi)
+    l = ("param", "l")
+    want = ("comp", "list", ("call", ("free", "hyphenatedict"), (("elem", l, 0),), ()), ((l, ()),), (0,))
+    ctx.ob("C19.R4", fi, len(ps) == 1 and N.canon_lids(ps[0].retval) == want, "hyphenatelist hyphenates every entry, in order", key="hyphenatelist")
+    ctx.floor("C19.R4", 16)
     ctx.control("C19.R1", hyphen("if_") == "if" and hyphen("repeat_expr") == "repeat-expr" and hyphen("bogus_key") not in KAITAI_ATTR_KEYS)
